@@ -32,6 +32,78 @@ fn fp(a: &Arithmetic<f64>) -> String {
     format!("{:?}", a)
 }
 
+/// One fixed tenant program; the returned transcript holds every observable result (Debug text
+/// prints floats shortest-round-trip, i.e. bit-exactly up to the sign of NaN).
+fn tenant(k: usize) -> String {
+    use stats_ci::comparison::{Paired, Unpaired};
+    use stats_ci::mean::{Geometric, Harmonic};
+    use stats_ci::utils::KahanSum;
+    use stats_ci::quantile;
+    use std::fmt::Write;
+    let mut out = String::new();
+    let c2 = Confidence::new_two_sided(0.95);
+    let cu = Confidence::new_upper(0.9);
+    let cl = Confidence::new_lower(0.75);
+    match k {
+        0 => {
+            // arithmetic states in both element types, a bare register, merges in both orientations
+            let mut a = Arithmetic::<f64>::new();
+            let mut b = Arithmetic::<f32>::new();
+            let mut r = KahanSum::<f64>::default();
+            for (i, &x) in DATA.iter().enumerate() {
+                a.append(x).unwrap();
+                b.append(x as f32).unwrap();
+                r += x;
+                if i == 0 {
+                    // fewer than two observations: the documented error, not a panic
+                    write!(out, "{:?};{:?};", a.ci_mean(c2), b.ci_mean(cu)).unwrap();
+                }
+            }
+            let p = part(1) + a + part(3);
+            let mut q = Arithmetic::<f32>::from_iter(&[0.5f32, 0.25, 8.0]).unwrap();
+            q += b;
+            write!(out, "{:?};{:?};{:?};{:?};{:?};{:?};{:?}", a, r.value(), p, q, p.ci_mean(c2), q.ci_mean(cl), a.ci_mean(cu)).unwrap();
+        }
+        1 => {
+            // geometric / harmonic states with a refused record in the middle of the stream
+            let mut g = Geometric::<f64>::new();
+            let mut h = Harmonic::<f32>::new();
+            for (i, &x) in DATA[..16].iter().enumerate() {
+                g.append(x).unwrap();
+                h.append(x as f32).unwrap();
+                if i == 5 {
+                    let before = (format!("{:?}", g), format!("{:?}", h));
+                    write!(out, "{:?};{:?};", g.append(-2.5), h.append(0.0)).unwrap();
+                    write!(out, "{:?};", g.extend(&[3.0, 0.0, 4.0])).unwrap();
+                    assert_eq!(before.1, format!("{:?}", h), "S7: a refused record changed the harmonic state");
+                    let _ = before.0;
+                }
+            }
+            let g2 = Geometric::<f64>::from_iter(&[2.0, 0.5, 4.0]).unwrap() + g;
+            write!(out, "{:?};{:?};{:?};{:?};{:?};{:?};{:?}", g, h, g.ci_mean(c2), h.ci_mean(cu), g2.ci_mean(cl), h.sample_sem(), g.sample_mean()).unwrap();
+            write!(out, ";{:?}", Harmonic::<f64>::ci(c2, &[1.0, 2.0, -1.0, 4.0])).unwrap();
+        }
+        _ => {
+            // comparisons, proportions, quantiles — with their documented refusals
+            let xs: Vec<f64> = DATA[..10].to_vec();
+            let ys: Vec<f64> = DATA[6..16].to_vec();
+            let mut p = Paired::<f64>::default();
+            p.extend(&xs, &ys).unwrap();
+            write!(out, "{:?};", p.extend(&xs[..3].to_vec(), &ys[..5].to_vec())).unwrap();
+            let mut u = Unpaired::<f64>::from_iter(&xs[..4].to_vec(), &ys[..7].to_vec()).unwrap();
+            u.extend_a(&xs[4..].to_vec()).unwrap();
+            let u2 = Unpaired::<f64>::from_iter(&ys[..1].to_vec(), &xs[..1].to_vec()).unwrap();
+            write!(out, "{:?};{:?};{:?};{:?};", p.ci_mean(c2), u.ci_mean(c2), u.ci_mean(cu), u2.ci_mean(c2)).unwrap();
+            let mut s = proportion::Stats::default();
+            s.extend(&[true, false, true, true, false, true, true, false, true, true, true, false]);
+            s += proportion::Stats::new(40, 13);
+            write!(out, "{:?};{:?};{:?};{:?};", s, s.ci(c2), proportion::ci(cu, 10, 11), proportion::ci(cl, 50, 1)).unwrap();
+            write!(out, "{:?};{:?};{:?};{:?}", quantile::ci(c2, &DATA[..16].to_vec(), 0.5), quantile::ci(cu, &DATA[..16].to_vec(), 0.25), quantile::ci(c2, &DATA[..16].to_vec(), 1.5), quantile::ci(c2, &DATA[..3].to_vec(), 0.5)).unwrap();
+        }
+    }
+    out
+}
+
 fn main() {
     // ---------------- concurrent first use of the lazily initialised normal distribution
     let conf = Confidence::new_two_sided(0.95);
@@ -86,6 +158,34 @@ fn main() {
                         let s = if k / 2 == 0 { &s1 } else { &s2 };
                         let got = format!("{:?}", s.ci_mean(levels[k % 2]));
                         assert_eq!(got, expected[k], "S6: a concurrent query of a shared state answered differently from the same query made alone");
+                    }
+                })
+            })
+            .collect();
+        for h in hs {
+            h.join().unwrap();
+        }
+    }
+
+    // ---------------- S7: independent tenants. Each thread owns its objects outright (nothing is
+    // shared by the callers), runs three fixed tenant programs in its own rotation — accumulate,
+    // merge, query, and the fault paths of C05 / C11 (a refused non-positive record, too few
+    // observations, unequal paired lengths, a quantile outside (0, 1), successes > population) —
+    // while Miri pre-empts it anywhere. Every tenant's transcript must be bit-identical to the
+    // transcript of the same program executed alone before any thread existed: whatever a change
+    // makes the calls share behind the callers' backs (scratch buffer, pool, memo, counter) and
+    // updates without owning the interleaving shows as a differing transcript.
+    {
+        let alone: Vec<String> = (0..3).map(tenant).collect();
+        let alone = Arc::new(alone);
+        let hs: Vec<_> = (0..3usize)
+            .map(|t| {
+                let alone = alone.clone();
+                thread::spawn(move || {
+                    for i in 0..3usize {
+                        let k = (t + i) % 3;
+                        let got = tenant(k);
+                        assert_eq!(got, alone[k], "S7: tenant program {k} run next to other tenants differs from the same program run alone");
                     }
                 })
             })
